@@ -468,12 +468,17 @@ def qr_move_scp(asce, ctx, msg):
         completed = 0
         for data_set in gen:
             # request an association with destination send C-STORE
-            service = assoc.get_scu(data_set.SOPClassUID)
-            status = service(data_set, completed)
-            if status.is_failure:
+            try:
+                service = assoc.get_scu(data_set.SOPClassUID)
+            except exceptions.ClassNotSupportedError:
+                # destination has not accepted this SOP Class: sub-operation failed
                 failed += 1
-            if status.is_warning:
-                warning += 1
+            else:
+                status = service(data_set, completed)
+                if status.is_failure:
+                    failed += 1
+                if status.is_warning:
+                    warning += 1
             completed += 1
             rsp.status = int(statuses.C_MOVE_PENDING)
             rsp.num_of_remaining_sub_ops = nop - completed
